@@ -264,3 +264,11 @@ func (h *cniHarness) stateNetworks(cid string) []string {
 	}
 	return out
 }
+
+// rawRequest posts an arbitrary body to the daemon's /cni handler.
+func (h *cniHarness) rawRequest(body string) (int, string) {
+	req := httptest.NewRequest(http.MethodPost, "/cni", strings.NewReader(body))
+	rec := httptest.NewRecorder()
+	h.rest.ServeHTTP(rec, req)
+	return rec.Code, rec.Body.String()
+}
